@@ -260,6 +260,10 @@ class CasJsonDeserializer:
         view.sofa_uri = json_fs.get(FEATURE_BASE_NAME_SOFAURI)
         view.sofa_array = feature_structures.get(json_fs.get(REF_FEATURE_PREFIX + FEATURE_BASE_NAME_SOFAARRAY))
 
+        # Sofas take part in the id and sofaNum spaces: ids generated later must not collide with them
+        self._max_xmi_id = max(view.get_sofa().xmiID, self._max_xmi_id)
+        self._max_sofa_num = max(view.get_sofa().sofaNum, self._max_sofa_num)
+
         return view.get_sofa()
 
     def _parse_feature_structure(
